@@ -24,8 +24,12 @@ MethodRuns(cfg) == IsHandle(cfg) /\ ReachesHandler(cfg) /\ HasScope(cfg) /\ cfg.
 \* the scope middleware's DEFAULT error handler is in use (none configured): it cannot be observed, only its effects
 \* (the handler does not run, the response is a 500)
 DefaultEH(cfg) == "defeh" \in DOMAIN cfg /\ cfg.defeh
+\* (gin) the configured error handler does not abort the chain: after a middleware error the Handle route still
+\* runs, with a request scope that is already closed - the controller cannot be resolved from it
+NoAbort(cfg) == "noabort" \in DOMAIN cfg /\ cfg.noabort
 ExpectedErrHandlers(cfg) ==
     IF cfg.scopemw /\ cfg.provclosed THEN (IF DefaultEH(cfg) THEN <<>> ELSE <<"scope">>)
+    ELSE IF HasScope(cfg) /\ cfg.mwfail > 0 /\ NoAbort(cfg) THEN <<"mw", "handle_resolve">>
     ELSE IF HasScope(cfg) /\ cfg.mwfail > 0 THEN (IF DefaultEH(cfg) THEN <<>> ELSE <<"mw">>)
     ELSE IF IsHandle(cfg) /\ ~cfg.scopemw THEN <<"handle_scope">>
     ELSE IF IsHandle(cfg) /\ ~cfg.registered THEN <<"handle_resolve">>
@@ -101,8 +105,11 @@ MGuards(ms, e) ==
          MG("controller_from_request_scope", SeesOwnScope(ms, e) /\ e.ctrl # 0)}
     ELSE IF e.ev = "errh" THEN
         LET rq == ms.reqs[e.rq] IN
-        {MG("expected_error_handler", Append(rq.errhs, e.kind) = ExpectedErrHandlers(cfg)),
-         MG("error_handler_instead_of_handler", e.kind \in {"scope", "mw", "handle_scope", "handle_resolve"} => (~rq.handler /\ ~rq.method))}
+        {MG("expected_error_handler", LET now == Append(rq.errhs, e.kind) exp == ExpectedErrHandlers(cfg) IN
+                                      Len(now) <= Len(exp) /\ now = SubSeq(exp, 1, Len(now))),
+         MG("error_handler_instead_of_handler", e.kind \in {"scope", "mw", "handle_scope", "handle_resolve"} => (~rq.handler /\ ~rq.method)),
+         MG("exactly_one_of_scope_and_resolution_handler",
+            e.kind \in {"handle_scope", "handle_resolve"} => \A i \in DOMAIN rq.errhs : rq.errhs[i] \notin {"handle_scope", "handle_resolve"})}
     ELSE IF e.ev = "scope_closed" THEN
         {MG("request_scope_closed_once", \A r \in OwnerOfScope(ms, e.scope) : ms.reqs[r].closed = 0),
          MG("request_scope_closed_by_end_of_request", \A r \in OwnerOfScope(ms, e.scope) : ~ms.reqs[r].done)}
